@@ -12,6 +12,7 @@ import (
 	"crypto/x509/pkix"
 	"encoding/base64"
 	"fmt"
+	"io"
 	"math/big"
 	"strings"
 	"time"
@@ -174,6 +175,7 @@ func runCase(r *hx.Run, c hx.Case) {
 	switch hdrvar {
 	case "emptygen":
 		m.SetGenHeader(mail.Header("X-Empty"))
+		spec.Gen = append(spec.Gen, bytex.KV{K: "X-Empty"})
 	case "ccignore":
 		m.CcIgnoreInvalid("not an address")
 	case "toignore":
@@ -189,8 +191,21 @@ func runCase(r *hx.Run, c hx.Case) {
 		r.Fail(c.ID, "harness-sign-setup", err.Error())
 		return
 	}
+	modelSpec := &spec
+	if hdrvar == "afterskip" {
+		modelSpec = nil // the extra render is outside the single-render model case
+	}
+	if hdrvar == "afterskip" {
+		// a render through the other entry point first: must not disturb the signing of later renders
+		_, _ = m.WriteToSkipMiddleware(io.Discard, "none")
+	}
 	var prev []byte
+	var cachedB [3]string
 	for render := 1; render <= 2; render++ {
+		desc := ""
+		if modelSpec != nil {
+			desc = bytex.Describe(m, modelSpec, cachedB, nil)
+		}
 		sink := &bytex.Sink{K: -1}
 		_, werr, pan := bytex.SafeWriteTo(m, sink)
 		if pan != nil {
@@ -200,6 +215,28 @@ func runCase(r *hx.Run, c hx.Case) {
 		if werr != nil {
 			r.Fail(c.ID, "render-error", werr.Error())
 			break
+		}
+		if modelSpec != nil {
+			// model comparison: boundaries and the CMS signature are read from the output (oracles)
+			if ent, err := mimeread.Read(sink.Accepted); err == nil && ent.MediaType == "multipart/signed" && len(ent.Kids) == 2 {
+				bm, br, ba := bytex.Boundaries(sink.Accepted)
+				var rb [][]byte
+				for _, b := range []string{bm, br, ba} {
+					if b != "" {
+						rb = append(rb, []byte(b))
+					}
+				}
+				d := strings.TrimSuffix(desc, ";N-") + ";N" + hx.HexList(rb)
+				digest := "nodigest"
+				if raw, err := mimeread.SplitMultipart(ent.Raw, ent.Boundary); err == nil && len(raw) == 2 {
+					if res, _ := cmsx.Verify(ent.Kids[1].Body, raw[0]); res != nil && res.Digest != nil {
+						digest = hx.Hex(res.Digest)
+					}
+				}
+				mc := hx.Case{ID: fmt.Sprintf("%s-r%d", c.ID, render), Kind: "smime", Args: append([]string{d, hx.Hex([]byte(ent.Boundary)), hx.Hex(ent.Kids[1].Body), "inf"}, c.Args...)}
+				r.Add(mc, fmt.Sprintf("ok %d %s %s", len(sink.Accepted), hx.Hex(sink.Accepted), digest), true)
+				cachedB = [3]string{bm, br, ba}
+			}
 		}
 		if cl, det := verify(sink.Accepted, ks, inter); cl != "" {
 			r.Fail(c.ID, fmt.Sprintf("%s-%s-%s-render%d", cl, shapeClass(shape, parts), hdrvar, render), fmt.Sprintf("shape %s hdr %s key %s render %d: %s", shape, hdrvar, key, render, det))
@@ -242,6 +279,9 @@ func shapeClass(shape string, parts [][]string) string {
 func Run(r *hx.Run, replay []hx.Case) {
 	if replay != nil {
 		for _, c := range replay {
+			if c.Kind == "smime" && len(c.Args) >= 11 {
+				c = hx.Case{ID: strings.TrimSuffix(strings.TrimSuffix(c.ID, "-r1"), "-r2"), Kind: "smimecase", Args: c.Args[4:11]}
+			}
 			if len(c.Args) < 7 {
 				r.Fail(c.ID, "bad-replay", "case needs 7 arguments")
 				continue
@@ -254,7 +294,7 @@ func Run(r *hx.Run, replay []hx.Case) {
 	txt := [][]byte{[]byte("Hello signed world\r\n"), []byte("line with = and trailing blank \r\n.dot\r\n"), []byte("\xc3\xa4 UTF-8 text\r\nsecond\r\n"), []byte("no final newline")}
 	bin := [][]byte{[]byte("\x00\x01binary\xff"), bytes.Repeat([]byte("0123456789"), 30)}
 	encs := []string{"quoted-printable", "base64", "8bit"}
-	hdrvars := []string{"none", "emptygen", "ccignore", "toignore", "preform", "multiline", "longsubject"}
+	hdrvars := []string{"none", "emptygen", "ccignore", "toignore", "preform", "multiline", "longsubject", "afterskip"}
 	names := []string{"a.bin", "a long file name that makes the disposition header exceed the folding limit.pdf", "na\xc3\xafve.txt"}
 	ci := 0
 	for n := 0; n <= 2; n++ {
@@ -294,7 +334,7 @@ func Run(r *hx.Run, replay []hx.Case) {
 						}
 						key := []string{"rsa", "ecdsa"}[ci%2]
 						inter := []string{"0", "1"}[(ci/2)%2]
-						runCase(r, hx.Case{ID: r.NewID(), Kind: "smime", Args: []string{encs[ci%3], j(ps), j(es), j(as), hv, key, inter}})
+						runCase(r, hx.Case{ID: r.NewID(), Kind: "smimecase", Args: []string{encs[ci%3], j(ps), j(es), j(as), hv, key, inter}})
 						ci++
 					}
 				}
